@@ -102,3 +102,96 @@ K.loop(2, var="j", invariant=[
     "forall(q, start <= q < j, " + OUT("q", "start", "i") + ")",
     "forall(q, 0 <= q < nval, implies(q < start or q >= j, outputs[q] == at_loop_entry(outputs[q])))",
     "implies(nagg_nan <= maxnan, not isnan(agg) and agg == at_loop_entry(agg)) and implies(nagg_nan > maxnan, isnan(agg))"])
+
+# ====================================================================================== c_qualitycontrol.c (C05 safety)
+F = cfile("src/hydrodiy/data/c_qualitycontrol.c")
+K = F.kernel("c_islin")
+K.requires("nval <= 2**30 and npoints >= -2**30 and npoints <= 2**30")
+K.requires("implies(nval >= 1, valid(data, nval) and valid(islin, nval)) and separated(data, islin)")
+K.assigns("islin[0:nval]")
+K.ensures("result == 0")
+K.ensures("forall(q, 0 <= q < nval, islin[q] == 0 or islin[q] == 1 or islin[q] == 2)", props=["C05"])
+K.loop(0, var="i", invariant=["0 <= i and (i <= nval or nval < 0) and nval < 3", "forall(q, 0 <= q < i, islin[q] == 0)"])
+K.loop(1, var="i", invariant=["nval >= 3 and 2 <= i and i <= nval and 0 <= count and count <= i and 0 <= start and start <= i and (lintype == 1 or lintype == 2)",
+                               "forall(q, 0 <= q < i, islin[q] == 0 or islin[q] == 1 or islin[q] == 2)"])
+K.loop(2, var="k", invariant=["0 <= start and start <= k and k <= i and 2 <= i and i < nval and (lintype == 1 or lintype == 2)",
+                               "forall(q, 0 <= q <= i, islin[q] == 0 or islin[q] == 1 or islin[q] == 2)"])
+
+# ====================================================================================== c_baseflow.c (C05 safety)
+F = cfile("src/hydrodiy/data/c_baseflow.c")
+K = F.kernel("c_eckhardt")
+K.requires("nval <= 2**30")
+K.requires("implies(nval >= 1, valid(inputs, nval) and valid(outputs, nval)) and separated(inputs, outputs)")
+K.assigns("outputs[0:nval]")
+K.loop(0, var="i", invariant=["1 <= i and i <= nval"])
+
+# ====================================================================================== c_dateutils.c (C05 safety)
+F = cfile("src/hydrodiy/data/c_dateutils.c")
+SANE_YEAR = "{0} >= -2**30 and {0} <= 2**30"
+K = F.kernel("c_dateutils_isleapyear")
+K.ensures("result == 0 or result == 1")
+K.ensures("iff(result == 1, year % 4 == 0 and (year % 100 != 0 or year % 400 == 0))")
+K = F.kernel("c_dateutils_daysinmonth")
+K.ensures("iff(result == -1, month < 1 or month > 12)")
+K.ensures("implies(1 <= month and month <= 12, 28 <= result and result <= 31)")
+K = F.kernel("c_dateutils_dayofyear")
+K.ensures("iff(result == -1, month < 1 or month > 12 or day < 1 or day > 31)")
+K.ensures("implies(result != -1, 1 <= result and result <= 365)")
+K = F.kernel("c_dateutils_add1month")
+K.requires("valid(date, 3) and " + SANE_YEAR.format("date[0]"))
+K.assigns("date[0:3]")
+K = F.kernel("c_dateutils_add1day")
+K.requires("valid(date, 3) and " + SANE_YEAR.format("date[0]"))
+K.assigns("date[0:3]")
+K = F.kernel("c_dateutils_getdate")
+K.requires("valid(date, 3)")
+K.assigns("date[0:3]")
+K = F.kernel("c_dateutils_comparedates")
+K.requires("valid(date1, 3) and valid(date2, 3)")
+K.ensures("result == 1 or result == 0 or result == -1")
+
+# ====================================================================================== c_var2h.c (C05 safety, C14)
+F = cfile("src/hydrodiy/data/c_var2h.c")
+V2H_SAFE = ["nvalvar >= 0 and nvalvar <= 2**30 and nvalh >= 0 and nvalh <= 2**30 and hstartsec >= -2**50 and hstartsec <= 2**50",
+            "valid(varsec, nvalvar) and valid(varvalues, nvalvar) and implies(nvalh >= 1, valid(hvalues, nvalh))",
+            "separated(varsec, varvalues, hvalues)",
+            "forall(k, 0 <= k < nvalvar, varsec[k] >= -2**50 and varsec[k] <= 2**50)"]
+K = F.kernel("c_var2h")
+for r in V2H_SAFE:
+    K.requires(r)
+K.assigns("hvalues[0:nvalh]")
+K.behavior("bad_flag", "rainfall < 0 or rainfall > 1", "result > 0", props=["C05"])
+K.behavior("bad_period", "nbsec_per_period != 1800 and nbsec_per_period != 3600", "result > 0", props=["C05"])
+K.loop(0, var="varindex", invariant=["0 <= varindex and varindex <= nvalvar", "forall(k, 0 <= k < varindex, varsec[k] <= hstartsec)"], variant="nvalvar - varindex")
+K.loop(1, var="i", invariant=["0 <= i and (i <= nvalh or nvalh < 0)"])
+K.loop(2, var="i", invariant=[
+    "0 <= i and (nbsec_per_period == 1800 or nbsec_per_period == 3600) and nbsec_per_period_d == real(nbsec_per_period) and isnan(nan)",
+    "0 <= varindex and varindex <= nvalvar - 2",
+    "varsec[varindex] <= hstartsec + i*nbsec_per_period"])
+K.loop(3, var="varindex", invariant=[
+    "0 <= i and i < nvalh - 1 and (nbsec_per_period == 1800 or nbsec_per_period == 3600) and nbsec_per_period_d == real(nbsec_per_period) and isnan(nan)",
+    "0 <= varindex and varindex <= nvalvar - 2 and at_loop_entry(varindex) <= varindex",
+    "t1 == real(varsec[varindex]) and start == real(hstartsec + i*nbsec_per_period) and end == start + real(nbsec_per_period)",
+    "varsec[at_loop_entry(varindex)] <= hstartsec + i*nbsec_per_period",
+    "varindex == at_loop_entry(varindex) or real(varsec[varindex - 1]) < end",
+    "miss == 0 or miss == 1"], variant="nvalvar - varindex")
+# ---- C14 functional clauses: evaluated concretely only (exact rational arithmetic) on enumerated inputs -- BOUNDED, not proved
+V2H_FUNC = ("nvalvar >= 2 and nvalh >= 2 and (rainfall == 0 or rainfall == 1) and (nbsec_per_period == 1800 or nbsec_per_period == 3600) and "
+            "forall(k, 1 <= k < nvalvar, varsec[k-1] <= varsec[k]) and varsec[0] <= hstartsec and hstartsec < varsec[nvalvar-1]")
+K.ghost("ps(i)", "int", "hstartsec + i*nbsec_per_period")
+K.ghost("pe(i)", "int", "hstartsec + (i+1)*nbsec_per_period")
+K.ghost("invalid(k)", "bool", "isnan(varvalues[k]) or isnan(varvalues[k+1]) or varvalues[k] < -1e-8 or varvalues[k+1] < -1e-8 or varsec[k+1] - varsec[k] > maxgapsec")
+K.ghost("ovl(k, i)", "int", "min(varsec[k+1], pe(i)) - max(varsec[k], ps(i))")      # length of the overlap of interval k with period i
+K.ghost("slope(k)", "real", "(varvalues[k+1] - varvalues[k])/real(varsec[k+1] - varsec[k])")
+K.ghost("trap(k, i)", "real", "ite(ovl(k, i) <= 0 or invalid(k), 0.0, ite(rainfall == 1, "
+        "varvalues[k+1]*real(ovl(k, i))/real(varsec[k+1] - varsec[k])*real(nbsec_per_period), "
+        "(2*varvalues[k] + slope(k)*real(max(varsec[k], ps(i)) - varsec[k]) + slope(k)*real(min(varsec[k+1], pe(i)) - varsec[k]))*real(ovl(k, i))/2))")
+K.ghost("integ(i, n)", "real", "ite(n <= 0, 0.0, integ(i, n - 1) + trap(n - 1, i))", decreases="n")
+K.bounded("result == 0", assumes=V2H_FUNC, props=["C14"])
+# every value is missing or the time-average of the interpolant over a period that lies inside the data
+K.bounded("forall(i, 0 <= i < nvalh - 1, implies(not isnan(hvalues[i]), "
+          "hvalues[i] == integ(i, nvalvar - 1)/real(nbsec_per_period) and pe(i) <= varsec[nvalvar-1] and "
+          "not exists(k, 0 <= k < nvalvar - 1, ovl(k, i) > 0 and invalid(k))))", assumes=V2H_FUNC, props=["C14"])
+# a period inside the data is missing only if an invalid interval touches it
+K.bounded("forall(i, 0 <= i < nvalh - 1, implies(isnan(hvalues[i]) and pe(i) <= varsec[nvalvar-1], "
+          "exists(k, 0 <= k < nvalvar - 1, invalid(k) and varsec[k] <= pe(i) and varsec[k+1] >= ps(i))))", assumes=V2H_FUNC, props=["C14"])
